@@ -210,54 +210,3 @@ def main():
 
 if __name__ == '__main__':
     main()
-}
-
-NOT_YET = 'check not built yet in this session (see DESIGN.md section 8 build order); no claim is made'
-
-
-def main():
-    props = [json.loads(l) for l in open(os.path.join(VERIF, 'properties.jsonl'))]
-    checks, na = [], []
-    for p in props:
-        pid = p['id']
-        c = CLAIMS.get(pid)
-        if c is None:
-            na.append({'property_id': pid, 'reason': NOT_YET})
-            continue
-        checks.append({
-            'property_id': pid,
-            'quick_cmd': f'./check {pid} --tier quick',
-            'thorough_cmd': f'./check {pid} --tier thorough',
-            'evidence_file': f'/verif/evidence/{pid}.json',
-            'replay_cmd_template': f'./check {pid} --replay {{path}}',
-            'engine': 'coq+correspondence',
-            'level_claimed': {'category': 'proof', 'text': c['text'], 'design_ref': c['design_ref']},
-            'level_note': BASE_NOTE + c['note'],
-            'technique': c['technique'],
-        })
-    m = {
-        'version': 1,
-        'setup_cmd': './check setup',
-        'hooks': {'guard': 'KYUPY_VERIF', 'enable': 'no hook is needed: every check drives the pure-Python code of /repo/src from outside '
-                  '(PYTHONPATH=/repo/src); the guard variable is reserved', 'baseline_off_cmd':
-                  'cd /repo && /venv/bin/python -m pytest -ra -q -p no:cacheprovider --timeout=900 --continue-on-collection-errors',
-                  'source_commits': [], 'add_only': True},
-        'engines': [
-            {'name': 'coq', 'path': '/verif/coq', 'serves_properties': sorted(CLAIMS),
-             'kind_free_text': 'Coq 8.16.1 development: Model/ (executable models), Gen/ (regenerated from /repo on every run), Proofs/, Properties/ (statements only)'},
-            {'name': 'translators', 'path': '/verif/translate', 'serves_properties': sorted(CLAIMS),
-             'kind_free_text': 'Python tracing symbolic executor and ast extractors that regenerate Gen/*.v from the working tree'},
-            {'name': 'harness', 'path': '/verif/vcheck', 'serves_properties': sorted(CLAIMS),
-             'kind_free_text': 'check CLI: translation, make, Print Assumptions, correspondence (model evaluated by vm_compute vs implementation), oracle search, known findings, evidence'},
-        ],
-        'checks': checks,
-        'not_applicable': na,
-        'notes': 'See DESIGN.md. All checks claim level "proof"; where a main theorem is partial the level text says so.',
-    }
-    with open(os.path.join(VERIF, 'MANIFEST.json'), 'w') as f:
-        json.dump(m, f, indent=1)
-    print(f'{len(checks)} checks, {len(na)} not claimed')
-
-
-if __name__ == '__main__':
-    main()
